@@ -42,8 +42,9 @@ def r1(ctx):
     ctx.bulk("keys pairwise distinct", total, [("=".join(ks), f"{' and '.join(ks)} share the key {w:#x}") for w, ks in dup], "duplicate hash key", sample={"distinct": len(words)})
     ctx.floor("hash keys", total, 794)
     eng = T.Engine(P)
-    want = {"zobrist": ("PIECE_ZOBRIST", ["color", "pos", "piece"]), "castle_rights_zobrist": ("CASTLE_ZOBRIST", ["castle_rights"]),
-            "en_passant_zobrist": ("EN_PASSANT_ZOBRIST", ["file"]), "turn_zobrist": ("TURN_ZOBRIST", ["color"])}
+    BB_ = "chess_bitboard::"
+    want = {"zobrist": ("PIECE_ZOBRIST", [BB_ + "color::Color", BB_ + "pos::Pos", BB_ + "piece::Piece"]), "castle_rights_zobrist": ("CASTLE_ZOBRIST", ["usize"]),
+            "en_passant_zobrist": ("EN_PASSANT_ZOBRIST", [BB_ + "pos::File"]), "turn_zobrist": ("TURN_ZOBRIST", [BB_ + "color::Color"])}
     for fn, (tab, order) in want.items():
         key = "chess_lookup::" + fn
         ctx.used_body(key)
@@ -56,9 +57,10 @@ def r1(ctx):
                 for ix in ic[1]:
                     x = strip_casts(ix)
                     x = x[1] if x[0] == "discr" else x
-                    names.append(x[2] if x[0] == "param" else T.show(x))
+                    # each index is one of the accessor's parameters, identified by its type (colour, square, piece / rights / file)
+                    names.append(P.body(key)["locals"][x[1] + 1]["ty"] if x[0] == "param" else T.show(x))
                 got = (ic[0], names)
-        ctx.ob(f"accessor {fn}", got == (ZOB + tab, order), f"{fn} returns {T.show(lv[0].ret) if lv else None}; expected {tab}[{']['.join(order)}]",
+        ctx.ob(f"accessor {fn}", got == (ZOB + tab, order), f"{fn} returns {T.show(lv[0].ret) if lv else None}; expected {tab} indexed by parameters of types {order}",
                site=P.body(key).get("def_span"), sample={"term": T.show(lv[0].ret)[:160] if lv else None})
 
 
@@ -200,7 +202,7 @@ def r2(ctx):
     site = P.body(key).get("def_span")
     eng2 = T.Engine(P, opaque={"<chess_bitboard::BitBoardIter as core::iter::traits::iterator::Iterator>::next"})
     rets, loops, _ = eng2.paths(key)
-    slf, diff = ("param", 0, "self"), ("param", 3, "diff")
+    slf, diff = ("param", 0, "self"), ("param", 3, "a3")
     ok_ret = False
     for lf in rets:
         base, entries = upd_entries(eng2.freeze(lf.state, lf.ext.get(slf, ("obj", slf))))
@@ -214,7 +216,7 @@ def r2(ctx):
                 old = ("field", T.get_path(("obj", slf), path), "0")
                 toggled = w[0] == "bin" and w[1] == "BitXor" and {w[2], w[3]} == {old, ("field", diff, "0")}
                 got[names[1]] = (idx, toggled)
-        ok_ret = got == {"colors": (("param", 1, "color"), True), "pieces": (("param", 2, "piece"), True)}
+        ok_ret = got == {"colors": (("param", 1, "a1"), True), "pieces": (("param", 2, "a2"), True)}
     ctx.ob("Board::xor bitboards", ok_ret, "Board::xor does not toggle colors[color] and pieces[piece] by `diff`", site=site, sample={"toggles": "colors[color] ^= diff; pieces[piece] ^= diff"})
     ok_loop = bool(loops)
     for lf in loops:
@@ -226,7 +228,7 @@ def r2(ctx):
         good = len(carried) == 1 and len(keys) == 1 and keys[0] is not None
         if good:
             c, s, p = keys[0]
-            good = c == ("param", 1, "color") and p == ("param", 2, "piece") and diff in subterms(s) and any(x[0] == "app" and "BitBoardIter" in x[1] for x in subterms(s))
+            good = c == ("param", 1, "a1") and p == ("param", 2, "a2") and diff in subterms(s) and any(x[0] == "app" and "BitBoardIter" in x[1] for x in subterms(s))
         ok_loop &= good
     ctx.ob("Board::xor hash", ok_loop, "Board::xor does not xor the piece key of (color, each square of diff, piece) into the hash in its loop", site=site,
            sample={"per-iteration": "zobrist ^= PIECE_ZOBRIST[color][pos in diff][piece]"})
@@ -241,37 +243,42 @@ def r2(ctx):
     body = P.body(key)
     site = body.get("def_span")
     c = cfg.cfg_of(body)
-    names = {i: l.get("n") for i, l in enumerate(body["locals"])}
-    eng3 = T.Engine(P, opaque={"chess_movegen::fen::parse_piece", "chess_bitboard::pos::Pos::new", "chess_bitboard::pos::File::from_u8"})
-    found = 0
-    for h, bl in c.loops().items():
-        exits = {s for x in bl for s in c.succ[x] if s not in bl}
-        for lf in eng3.region(key, h, exits):
-            fr = lf.state.frames[0]
-            boards = [(i, v) for i, v in fr.locals.items() if names.get(i) == "board" and v[0] == "upd"]
-            zobs = [(i, v) for i, v in fr.locals.items() if names.get(i) == "zobrist" and v[0] == "bin"]
-            if not boards and not zobs:
-                continue
-            found += 1
-            label = f"parse_fen loop[{T.show(lf.ret)}#{found}]"
-            if len(boards) != 1 or len(zobs) != 1:
-                ctx.ob(label, False, f"{label}: board updated: {len(boards)}, hash updated: {len(zobs)}", site=site)
-                continue
-            base, entries = upd_entries(eng3.freeze(lf.state, boards[0][1]))
-            zob_new = eng3.freeze(lf.state, zobs[0][1])
-            carried = [t for t in xor_terms(zob_new) if t[0] == "loopvar"]
-            check_pairing(ctx, label, site, base, entries, (), carried[0] if carried else None, zob_new, expect_change=True)
-    ctx.floor("parse_fen placement paths", found, 1)
-    # the Board literal is built from these two locals
-    agg_ok = False
+    # the two accumulators are identified by dataflow, not by name: the locals the Board literal takes `raw` and `zobrist` from
+    zl = rl = None
     for blk in body["blocks"]:
         for s in blk["s"]:
             r = s.get("r", {})
             if r.get("k") == "agg" and r.get("adt") == "chess_movegen::Board":
                 ops = dict(zip(r["fields"], r["ops"]))
                 zl, rl = resolve_copy(body, ops["zobrist"].get("p", {}).get("l")), resolve_copy(body, ops["raw"].get("p", {}).get("l"))
-                agg_ok = names.get(zl) == "zobrist" and names.get(rl) == "board"
-    ctx.ob("parse_fen board literal", agg_ok, "the Board built by parse_fen does not take its hash and bitboards from the loop's accumulators", site=site)
+    ctx.ob("parse_fen board literal", zl is not None and rl is not None and body["locals"][zl]["ty"] == "u64" and body["locals"][rl]["ty"] == RAW,
+           "the Board built by parse_fen does not take its hash and bitboards from two local accumulators", site=site)
+    if zl is None or rl is None:
+        return
+    eng3 = T.Engine(P, opaque={"chess_movegen::fen::parse_piece", "chess_bitboard::pos::Pos::new", "chess_bitboard::pos::File::from_u8"})
+    found = 0
+    for h, bl in c.loops().items():
+        exits = {s for x in bl for s in c.succ[x] if s not in bl}
+        for lf in eng3.region(key, h, exits):
+            fr = lf.state.frames[0]
+            bv, zv = fr.locals.get(rl), fr.locals.get(zl)
+            if bv is None or zv is None:
+                continue
+            base, entries = upd_entries(eng3.freeze(lf.state, bv))
+            # the generic-iteration abstraction marks loop-carried fields with `loopvar` values: those entries are not modifications
+            entries = [(pth, v) for pth, v in entries if not (v[0] == "loopvar" and v[1] == h and not any(e[0] == "i" for e in pth))]
+            zob_new = eng3.freeze(lf.state, zv)
+            carried = [t_ for t_ in xor_terms(zob_new) if t_[0] == "loopvar" and t_[1] == h and t_[2] == (zl, ())]
+            hash_changed = not (zob_new[0] == "loopvar" and zob_new[1] == h)
+            if not entries and not hash_changed:
+                continue
+            found += 1
+            label = f"parse_fen loop[{T.show(lf.ret)}#{found}]"
+            if not entries or not hash_changed:
+                ctx.ob(label, False, f"{label}: bitboards updated: {bool(entries)}, hash updated: {hash_changed}", site=site)
+                continue
+            check_pairing(ctx, label, site, base, entries, (), carried[0] if carried else None, zob_new, expect_change=True)
+    ctx.floor("parse_fen placement paths", found, 1)
 
     # --- who-may-call: RawBoard mutators
     allowed = {
@@ -311,7 +318,19 @@ def r2(ctx):
                 if s["k"] == "assign" and s["p"]["pj"] and isinstance(s["p"]["pj"][-1], dict) and s["p"]["pj"][-1].get("n") == "zobrist" and s["p"]["pj"][-1].get("a") == "chess_movegen::Board":
                     zw.add(k)
     okw = {"chess_movegen::Board::xor", "chess_movegen::BoardBuilder::place", "chess_movegen::BoardBuilder::remove"}
-    ctx.ob("who-may-write Board.zobrist", zw <= okw and len(zw) >= 3, f"Board.zobrist is assigned in {sorted(zw - okw)} besides the paired update sites", sample={"writers": sorted(zw)})
+
+    def wrapper_of_paired_sites(k, depth=0):
+        """a non-public helper all of whose callers are paired update sites (or such helpers): its write is analysed inlined at those sites"""
+        if k in okw:
+            return True
+        if depth > 3 or P.fns[k].get("vis") == "pub":
+            return False
+        cs = {c_ for c_, _ in callers.get(k, [])}
+        return bool(cs) and all(wrapper_of_paired_sites(c_, depth + 1) for c_ in cs)
+    stray = sorted(k for k in zw if not wrapper_of_paired_sites(k))
+    roots = {k for k in okw if k in zw or any(k in {c_ for c_, _ in callers.get(w, [])} for w in zw)}
+    ctx.ob("who-may-write Board.zobrist", not stray and len(zw) >= 1 and roots == okw, f"Board.zobrist is assigned in {stray} besides the paired update sites (or the paired sites {sorted(okw - roots)} no longer update it)",
+           sample={"writers": sorted(zw)})
 
 
 def resolve_copy(body, local):
@@ -382,7 +401,7 @@ def r4(ctx):
     zdst = [t["d"]["l"] for _, t in P.calls(hk) if t["f"].get("fn") == zk]
     eng = T.Engine(P, opaque={zk})
     lv = eng.tabulate(hk)
-    arg_ok = len(lv) == 1 and any(s[0] == "app" and s[1].endswith("Board::zobrist") for s in subterms(lv[0].ext.get(("param", 1, "state"), lv[0].ret)) + subterms(lv[0].ret))
+    arg_ok = len(lv) == 1 and any(s[0] == "app" and s[1].endswith("Board::zobrist") for s in subterms(lv[0].ext.get(("param", 1, "a1"), lv[0].ret)) + subterms(lv[0].ret))
     ctx.ob("Hash::hash", ok and arg_ok, f"<Board as Hash>::hash calls {names}: expected exactly Board::zobrist() fed to <u64 as Hash>::hash", site=b.get("def_span"),
            sample={"calls": [T.short(n) for n in names]})
     ek = "<chess_movegen::Board as core::cmp::PartialEq>::eq"
@@ -422,11 +441,11 @@ def r5(ctx):
     lv = eng.tabulate(wk)
     slf = ("param", 0, "self")
     ok = len(lv) == 1 and T.get_path(eng.freeze(lv[0].state, lv[0].ext.get(slf, ("obj", slf))), (("f", 0, None, None),)) in (
-        ("adt", "core::option::Option", "Some", (("param", 1, "i"),)),) 
+        ("adt", "core::option::Option", "Some", (("param", 1, "a1"),)),) 
     if not ok and len(lv) == 1:
         v = eng.freeze(lv[0].state, lv[0].ext.get(slf, ("obj", slf)))
         base, ents = upd_entries(v)
-        ok = any(val == ("adt", "core::option::Option", "Some", (("param", 1, "i"),)) for _, val in ents)
+        ok = any(val == ("adt", "core::option::Option", "Some", (("param", 1, "a1"),)) for _, val in ents)
     ctx.ob("write_u64 stores Some(i)", ok, "IntHasher::write_u64 does not store its argument", site=P.body(wk).get("def_span"), sample="self.0 = Some(i)")
     lv = eng.tabulate(fk, keep_panics=True)
     rets = [l for l in lv if l.ret[0] != "panic"]
